@@ -103,7 +103,7 @@ Judge(rec, R) ==
   /\ IF LineT(R.lines) = rec.lines /\ LineB(R.lines) = rec.linelen THEN TRUE
      ELSE Emit("UNEXP", rec.id, [what |-> "render", mode |-> "", field |-> ""])
   /\ IF strict THEN JudgeFile(rec.id, "strict", w, rec.strict, R) ELSE TRUE
-  /\ JudgeFile(rec.id, "relaxed", w, rec.relaxed, R)
+  /\ JudgeFile(rec.id, "relaxed", w, IF rec.relaxed_same THEN rec.strict ELSE rec.relaxed, R)
   /\ \A k \in DOMAIN rec.diags : JudgeDiag(rec.id, w, rec.diags[k], R)
   /\ IF rec.lintpanic = "" THEN TRUE ELSE Emit("UNEXP", rec.id, [what |-> "lint", mode |-> "", field |-> rec.lintpanic])
 
